@@ -2,6 +2,8 @@ package props
 
 import (
 	"fmt"
+	"go/token"
+	"go/types"
 	"sort"
 	"strings"
 
@@ -9,6 +11,7 @@ import (
 	"gedverif/internal/e4"
 	"gedverif/internal/load"
 	"gedverif/internal/oblig"
+	"gedverif/internal/su"
 
 	"golang.org/x/tools/go/ssa"
 )
@@ -188,6 +191,7 @@ func C09(p *load.Prog, r *oblig.Run) {
 	r.Assumptions = e4Assumptions()
 	r.Rule("R09.a", "the merge result is built from fresh nodes all the way down", 2)
 	r.Rule("R09.b", "merging performs no structural write on either input", 2)
+	c09TypedNil(p, r)
 	r.Rule("R09.c", "a merge function returns nil or a node computed from both operands (nothing of the right node is dropped by a shortcut)", 1)
 	g := cg.New(p, false)
 	mn := p.MustFunc(load.PkgRoot, "MergeNodes")
@@ -298,7 +302,7 @@ func mergeFnDependsOnBoth(p *load.Prog, r *oblig.Run, fn *ssa.Function) {
 		}
 		n++
 		if !(derives(v, fn.Params[0], 0) && derives(v, fn.Params[1], 0)) {
-			o.Fail("the merge function can return, at "+p.Pos(ret.Pos())+", a node that is computed from only one of its two operands: whatever the other operand (and its descendants) holds is lost from the merge result")
+			o.Fail("the merge function can return, at " + p.Pos(ret.Pos()) + ", a node that is computed from only one of its two operands: whatever the other operand (and its descendants) holds is lost from the merge result")
 			return
 		}
 	}
@@ -327,6 +331,7 @@ func C07(p *load.Prog, r *oblig.Run) {
 	r.Rule("R07.a", "a deep copy shares no node with its source", 1)
 	r.Rule("R07.b", "copying leaves the source untouched", 2)
 	r.Rule("R07.c", "a node is copied with its own tag, value and pointer through the kind registry", 1)
+	r.Rule("R07.d", "the family links of copied HUSB/WIFE/CHIL nodes lead to families made by the copy, never to the source's", 1)
 	g := cg.New(p, false)
 	dc := p.MustFunc(load.PkgRoot, "DeepCopy")
 	fl := p.MustFunc(load.PkgRoot, "Filter")
@@ -334,6 +339,7 @@ func C07(p *load.Prog, r *oblig.Run) {
 		a := e4.New(p, g, dc)
 		a.Run(nil)
 		addFreshObligation(p, r, "R07.a", dc, a, 0, "result of DeepCopy")
+		c07FamilyLinks(p, r)
 		res := purityResult{a: a}
 		for _, w := range a.SortedWrites() {
 			if w.Class == "structural" && targetsParam(w, map[int]bool{0: true}) {
@@ -404,5 +410,228 @@ func C07(p *load.Prog, r *oblig.Run) {
 	}
 	if calls == 0 {
 		o.Fail("shallowCopyNode no longer goes through the kind registry (newNode): copies may lose their specialised kind")
+	}
+}
+
+// c07FamilyLinks (R07.d): the family handed to the constructor of a copied
+// HUSB/WIFE/CHIL node in filter() is produced by Document.AddFamily on the
+// destination (through the entity map), inherited from the enclosing filter
+// call, or nil - never the source's family. (The allocation sites of the node
+// constructors are shared between the intermediate copy made by the callback
+// and the final copy, so this clause is decided on the value flow inside
+// filter instead of on the abstract heap.)
+func c07FamilyLinks(p *load.Prog, r *oblig.Run) {
+	o := r.Add("R07.d", "family given to the copies made by filter", "-", "origin of the family argument of the copy constructor")
+	fl := p.Func(load.PkgRoot, "filter")
+	sc := p.Func(load.PkgRoot, "shallowCopyNode")
+	addFam := p.Method(load.PkgRoot, "Document", "AddFamily")
+	if fl == nil || sc == nil || addFam == nil {
+		o.Unknown("filter / shallowCopyNode / Document.AddFamily not found")
+		return
+	}
+	o.Pos = p.Pos(fl.Pos())
+	var famParam *ssa.Parameter
+	for _, prm := range fl.Params {
+		if n := load.NamedOf(prm.Type()); n != nil && n.Obj().Name() == "FamilyNode" {
+			famParam = prm
+		}
+	}
+	calls := su.CallsTo(fl, sc)
+	if len(calls) == 0 || famParam == nil {
+		o.Unknown("filter no longer copies through shallowCopyNode with a family")
+		return
+	}
+	bad := ""
+	seen := map[ssa.Value]bool{}
+	var fromAddFamily func(v ssa.Value, d int) bool
+	fromAddFamily = func(v ssa.Value, d int) bool {
+		v = su.Strip(v)
+		if d > 8 {
+			return false
+		}
+		switch x := v.(type) {
+		case *ssa.Call:
+			return x.Call.StaticCallee() == addFam
+		case *ssa.Phi:
+			for _, e := range x.Edges {
+				if !fromAddFamily(e, d+1) {
+					return false
+				}
+			}
+			return true
+		}
+		return false
+	}
+	var walk func(v ssa.Value, d int)
+	walk = func(v ssa.Value, d int) {
+		if seen[v] || bad != "" {
+			return
+		}
+		seen[v] = true
+		if d > 12 {
+			bad = "derivation too deep"
+			return
+		}
+		switch x := v.(type) {
+		case *ssa.Parameter:
+			if x != famParam {
+				bad = "parameter " + x.Name()
+			}
+		case *ssa.Const:
+			if x.Value != nil {
+				bad = "a constant"
+			}
+		case *ssa.Phi:
+			for _, e := range x.Edges {
+				walk(e, d+1)
+			}
+		case *ssa.TypeAssert:
+			walk(x.X, d+1)
+		case *ssa.Extract:
+			walk(x.Tuple, d+1)
+		case *ssa.ChangeInterface:
+			walk(x.X, d+1)
+		case *ssa.MakeInterface:
+			walk(x.X, d+1)
+		case *ssa.Call:
+			cal := x.Call.StaticCallee()
+			if cal == addFam {
+				return
+			}
+			// entityMap.GetOrAssign(key, func() interface{}): the value is what the function argument returns
+			okCall := false
+			if cal != nil && cal.Name() == "GetOrAssign" {
+				for _, a := range x.Call.Args {
+					mc, isMC := a.(*ssa.MakeClosure)
+					if !isMC {
+						continue
+					}
+					okCall = true
+					fn := mc.Fn.(*ssa.Function)
+					for _, b := range fn.Blocks {
+						if ret, isRet := b.Instrs[len(b.Instrs)-1].(*ssa.Return); isRet {
+							for _, rv := range ret.Results {
+								if !fromAddFamily(rv, 0) {
+									bad = "the value returned at " + p.Pos(ret.Pos()) + ", which is not the result of Document.AddFamily on the destination document"
+								}
+							}
+						}
+					}
+				}
+			}
+			if !okCall && bad == "" {
+				bad = "the result of " + x.Call.String()
+			}
+		default:
+			bad = fmt.Sprintf("%s (%T)", v.String(), v)
+		}
+	}
+	for _, c := range calls {
+		if len(c.Call.Args) == 3 {
+			walk(c.Call.Args[2], 0)
+		}
+	}
+	// the outermost call passes no family
+	for _, fn := range p.Repo {
+		if fn == fl {
+			continue
+		}
+		for _, c := range su.CallsTo(fn, fl) {
+			for i, prm := range fl.Params {
+				if prm == famParam && i < len(c.Call.Args) {
+					if k, isK := c.Call.Args[i].(*ssa.Const); !isK || k.Value != nil {
+						bad = "the family passed by " + load.FuncName(fn)
+					}
+				}
+			}
+		}
+	}
+	if bad != "" {
+		o.Fail("a copied HUSB/WIFE/CHIL node can be given a family that is not created by the copy: " + bad + " - the copy is not independent of its source (Family(), Father(), Mother() on the copy return source nodes and follow later edits of the source)")
+	} else {
+		o.OK("the family of a copy is Document.AddFamily's result (through the entity map), the enclosing call's family, or nil")
+	}
+}
+
+// c09TypedNil (R09.d): a Node returned by a caller-supplied function (a call
+// through a function-typed parameter, field or variable) is an interface that
+// can hold a typed nil pointer; the library tests such values with IsNil. A
+// plain comparison with nil lets a typed nil through as "a node".
+func c09TypedNil(p *load.Prog, r *oblig.Run) {
+	r.Rule("R09.d", "a node returned by a caller-supplied merge function is tested with IsNil, never compared with nil directly", 1)
+	isNil := p.Func(load.PkgRoot, "IsNil")
+	nodeT := p.ByPath[load.PkgRoot].Types.Scope().Lookup("Node")
+	if isNil == nil || nodeT == nil {
+		r.Add("R09.d", "anchors", "-", "anchor").Unknown("IsNil / Node not found")
+		return
+	}
+	ord := map[string]int{}
+	for _, fn := range p.Repo {
+		if pkgPathOf(fn) != load.PkgRoot {
+			continue
+		}
+		for _, c := range su.Calls(fn) {
+			cc := c.Common()
+			if cc.IsInvoke() || cc.StaticCallee() != nil {
+				continue
+			}
+			if _, isB := cc.Value.(*ssa.Builtin); isB {
+				continue
+			}
+			val, ok := c.(ssa.Value)
+			if !ok || !types.Identical(val.Type(), nodeT.Type()) {
+				continue
+			}
+			// only functions handed in by the caller (named function types such as MergeFunction)
+			if n := load.NamedOf(cc.Value.Type()); n == nil || n.Obj().Name() != "MergeFunction" {
+				continue
+			}
+			key := "result of the merge function called in " + load.FuncName(fn)
+			ord[key]++
+			if ord[key] > 1 {
+				key = fmt.Sprintf("%s #%d", key, ord[key])
+			}
+			o := r.Add("R09.d", key, p.Pos(c.Pos()), "nil test of a merge function's result")
+			direct, viaIsNil := "", false
+			var follow func(v ssa.Value, d int)
+			seen := map[ssa.Value]bool{}
+			follow = func(v ssa.Value, d int) {
+				if seen[v] || d > 4 || v.Referrers() == nil {
+					return
+				}
+				seen[v] = true
+				for _, ref := range *v.Referrers() {
+					switch x := ref.(type) {
+					case *ssa.BinOp:
+						if x.Op == token.EQL || x.Op == token.NEQ {
+							for _, other := range []ssa.Value{x.X, x.Y} {
+								if k, isK := other.(*ssa.Const); isK && k.Value == nil {
+									direct = p.Pos(x.Pos())
+								}
+							}
+						}
+					case *ssa.Call:
+						if x.Call.StaticCallee() == isNil {
+							viaIsNil = true
+						}
+					case *ssa.MakeInterface:
+						follow(x, d+1)
+					case *ssa.ChangeInterface:
+						follow(x, d+1)
+					case *ssa.Phi:
+						follow(x, d+1)
+					}
+				}
+			}
+			follow(val, 0)
+			switch {
+			case direct != "":
+				o.Fail("the node returned by the merge function is compared with nil at " + direct + ": a merge function that declines with a typed nil pointer (var n *IndividualNode; return n) is taken to have merged, the left element is replaced by a nil node and the right element is dropped")
+			case viaIsNil:
+				o.OK("tested with IsNil")
+			default:
+				o.OK("not nil-tested here (returned or passed on)")
+			}
+		}
 	}
 }
